@@ -487,6 +487,20 @@ func hxDecodeWords(v []byte) ([]byte, bool) {
 					if lastWasWord {
 						out = out[:len(out)-pendingWS]
 					}
+					// honour the charset label: ISO-8859-x text is transcoded to UTF-8
+					// (Latin-1 mapping), UTF-8 / US-ASCII text is taken as it is
+					cs := hxLower(v[i+2 : j])
+					if len(cs) >= 9 && cs[:9] == "iso-8859-" {
+						var u []byte
+						for _, b := range dec {
+							if b < 0x80 {
+								u = append(u, b)
+							} else {
+								u = append(u, 0xc0|b>>6, 0x80|b&0x3f)
+							}
+						}
+						dec = u
+					}
 					out = append(out, dec...)
 					lastWasWord = true
 					pendingWS = 0
